@@ -544,7 +544,11 @@ class SuccessionDiagram:
             succession diagram.
         """
         # Every stub node is reachable through an expanded node and
-        # thus will be checked by the following code.
+        # thus will be checked by the following code. The only exception
+        # is the root, which has no parent and can be a stub itself.
+        if other.find_node(self.node_data(self.root())["space"]) is None:
+            return False
+
         for i in self.expanded_ids():
             other_i = other.find_node(self.node_data(i)["space"])
             if other_i is None:
